@@ -775,6 +775,26 @@ func (e *Engine) Explore(entry *ssa.Function, args []Value) {
 	}
 }
 
+// ReinitBV re-creates the base memory with machine integers as bit-vectors
+// (package initialisers are executed again in that encoding).
+func (e *Engine) ReinitBV(pkgPath string) error {
+	e.IntMode = false
+	e.baseMem = map[*Object]Value{}
+	for g, o := range e.globals {
+		et := g.Type().Underlying().(*types.Pointer).Elem()
+		e.baseMem[o] = e.Zero(et)
+	}
+	// reset the init guards so that the initialisers run again
+	for _, p := range e.P.Prog.AllPackages() {
+		if g, ok := p.Members["init$guard"].(*ssa.Global); ok {
+			if o := e.globals[g]; o != nil {
+				e.baseMem[o] = FalseT
+			}
+		}
+	}
+	return e.RunInit(pkgPath)
+}
+
 // SetGlobalInt overrides an int package variable of a harness in this worker.
 func (e *Engine) SetGlobalInt(pkgPath, name string, v int) error {
 	pk := e.P.Package(pkgPath)
